@@ -5,6 +5,7 @@ from math import prod
 from typing import Callable, Dict, List, Optional, Tuple, Union
 
 import jax.numpy as jnp
+import numpy as np
 import pandas as pd
 
 from jaxley.modules import Module
@@ -233,6 +234,21 @@ def integrate(
         raise ValueError("No recordings are set. Please set them.")
     rec_inds = module.recordings.rec_index.to_numpy()
     rec_states = module.recordings.state.to_numpy()
+
+    # States and currents of synapses are stored in one array per synapse type, but
+    # recordings and clamps refer to synapses by their global edge index.
+    _, edge_state_names = module._get_state_names()
+    if len(module.edges) > 0:
+        within_type = module._edge_inds_within_type()
+        rec_inds = np.asarray(
+            [
+                within_type[ind] if state in edge_state_names else ind
+                for state, ind in zip(rec_states, rec_inds)
+            ]
+        )
+        for key in external_inds.keys():
+            if key in edge_state_names:
+                external_inds[key] = within_type[np.asarray(external_inds[key])]
 
     # Shorten or pad stimulus depending on `t_max`.
     if t_max is not None:
